@@ -64,7 +64,8 @@ def raw_inverse_paths(repo: Repo, rep, P: str, rule: str):
     mod = repo.cls("Module", module="rv.modules.module")
     rel = mod.file.rel
     # ---------------- set_raw
-    fn = repo.own_method(mod, "set_raw")
+    from .. import inline
+    fn = inline.normalize(repo, mod, repo.own_method(mod, "set_raw"))
     rep.func("rv.modules.module.Module.set_raw")
     construct = f"{rel}:Module.set_raw"
     params = [a.arg for a in fn.args.args if a.arg != "self"]
